@@ -112,7 +112,9 @@ func GetPosition(ast MalType) *Position {
 func NewLispError(err MalType, ast MalType) LispError {
 	switch err := err.(type) {
 	case LispError:
-		err.cursor = GetPosition(ast)
+		if err.cursor == nil {
+			err.cursor = GetPosition(ast)
+		}
 		return err
 	default:
 		return LispError{
